@@ -114,6 +114,10 @@ Proof. vm_compute. reflexivity. Qed.
 Lemma clone_validation_ok : clone_validation = Some true.
 Proof. vm_compute. reflexivity. Qed.
 
+(** below a memento function, the plain helpers of that function's own package are hashed *)
+Lemma scope_follows_memento_fn_ok : scope_follows_memento_fn = Some true.
+Proof. vm_compute. reflexivity. Qed.
+
 Definition current_hd : bool := match defaults_hashed with Some b => b | None => false end.
 
 (** C01 for the code as it is now: same digest input (with what the current source hashes), same behaviour *)
